@@ -60,9 +60,13 @@ impl Monitor for Mon {
             self.class_a_req_pending = false;
         }
         if aborted_before_tx(w, rec) {
-            // the uplink that would have carried the answers never reached the radio: no expectation on the next one
+            // the uplink that would have carried the answers never reached the radio: whether the answers went with it
+            // is open, so nothing is expected of the next one - and nothing is excluded either (an answer that is still
+            // queued must not be blamed on a frame heard in RXC meanwhile: `class_a_req_pending` stays as it is)
+            if self.expect_devstatus == Some(true) {
+                self.class_a_req_pending = true;
+            }
             self.expect_devstatus = None;
-            self.class_a_req_pending = false;
             stats.bump("probe.uplink-aborted-before-tx");
         }
         let reacts = reactions(w, rec);
